@@ -1511,10 +1511,20 @@ void ExpandLine(char const* TokNam, unsigned TokenNum, as_dynstr_t* p_str) {
     (void)ReplaceLineUnchecked(p_str, Token, TokNam, True);
 }
 
-void KillCtrl(char* Line) {
-    char* z;
+void KillCtrl(as_dynstr_t* p_str) {
+    char*  Line;
+    char*  z;
+    size_t ReqSize = 1;
 
-    if (*(z = Line) == '\0') {
+    /* every TAB may become up to 8 blanks: make room before expanding in place */
+
+    for (z = p_str->p_str; *z != '\0'; z++) {
+        ReqSize += (*z == Char_HT) ? 8 : 1;
+    }
+    if (ReqSize > p_str->capacity) {
+        as_dynstr_realloc(p_str, as_dynstr_roundup_len(ReqSize));
+    }
+    if (*(z = Line = p_str->p_str) == '\0') {
         return;
     }
     do {
